@@ -217,3 +217,129 @@ func SetTuning(writeChan, writeBuf, stripes int) {
 
 //go:norace
 func LoadingInner[K comparable, V any](s *LoadingStore[K, V]) *Store[K, V] { return s.Store }
+
+// ---------------- component drivers ----------------
+
+// WBWheelSim drives the real TimerWheel alone (C04).
+type WBWheelSim struct {
+	tw      *TimerWheel[int, int64]
+	entries map[int]*Entry[int, int64]
+}
+
+//go:norace
+func NewWBWheelSim(start int64) *WBWheelSim {
+	tw := NewTimerWheel[int, int64](1000)
+	tw.nanos = start
+	return &WBWheelSim{tw: tw, entries: map[int]*Entry[int, int64]{}}
+}
+
+// Schedule files key under deadline expire (re-files it if already scheduled).
+//
+//go:norace
+func (w *WBWheelSim) Schedule(key int, expire int64) {
+	e := w.entries[key]
+	if e == nil {
+		e = &Entry[int, int64]{key: key}
+		w.entries[key] = e
+	}
+	e.expire.Store(expire)
+	w.tw.schedule(e)
+}
+
+//go:norace
+func (w *WBWheelSim) Deschedule(key int) {
+	if e := w.entries[key]; e != nil && e.meta.wheelPrev != nil {
+		w.tw.deschedule(e)
+	}
+	delete(w.entries, key)
+}
+
+// Advance calls the real advance(now) and returns the keys handed to the
+// removal callback, in order, with the deadline each carried at that moment.
+//
+//go:norace
+func (w *WBWheelSim) Advance(now int64) (keys []int, deadlines []int64) {
+	w.tw.advance(now, func(e *Entry[int, int64], reason RemoveReason) {
+		keys = append(keys, e.key)
+		deadlines = append(deadlines, e.expire.SimPeek())
+		if reason != EXPIRED {
+			keys = append(keys, -1000000-int(reason))
+			deadlines = append(deadlines, 0)
+		}
+	})
+	return
+}
+
+// Contents walks every slot: (key, deadline, level, slot) of every filed entry.
+//
+//go:norace
+func (w *WBWheelSim) Contents() (out []WBWheel[int], err string) {
+	tw := w.tw
+	for lv := range tw.wheel {
+		for sl, l := range tw.wheel[lv] {
+			n := 0
+			for e := l.root.meta.wheelNext; e != &l.root; e = e.meta.wheelNext {
+				if e == nil {
+					return out, fmt.Sprintf("nil wheelNext in level %d slot %d", lv, sl)
+				}
+				if e.meta.wheelNext == nil || e.meta.wheelNext.meta.wheelPrev != e {
+					return out, fmt.Sprintf("broken back link at level %d slot %d key %v", lv, sl, e.key)
+				}
+				out = append(out, WBWheel[int]{Level: lv, Slot: sl, Key: e.key, Expire: e.expire.SimPeek(), Ptr: unsafe.Pointer(e)})
+				n++
+				if n > len(w.entries)+10 {
+					return out, fmt.Sprintf("wheel list level %d slot %d does not terminate", lv, sl)
+				}
+			}
+		}
+	}
+	return out, ""
+}
+
+//go:norace
+func (w *WBWheelSim) Nanos() int64 { return w.tw.nanos }
+
+//go:norace
+func (w *WBWheelSim) Filed(key int) bool {
+	e := w.entries[key]
+	return e != nil && e.meta.wheelPrev != nil
+}
+
+// WBBufferSim drives one real lossy read buffer (C08). Items are numbered by
+// their hash field.
+type WBBufferSim struct {
+	b *Buffer[int, int64]
+}
+
+func NewWBBufferSim() *WBBufferSim { return &WBBufferSim{b: NewBuffer[int, int64]()} }
+
+// Add adds item id; if the caller obtained a batch, its ids are returned and
+// got is true (the caller now holds the token and must call Free).
+func (s *WBBufferSim) Add(id uint64) (batch []uint64, got bool) {
+	pb := s.b.Add(ReadBufItem[int, int64]{hash: id})
+	if pb == nil {
+		return nil, false
+	}
+	for _, it := range pb.Returned {
+		batch = append(batch, it.hash)
+	}
+	return batch, true
+}
+
+func (s *WBBufferSim) Free() { s.b.Free() }
+
+//go:norace
+func (s *WBBufferSim) State() (head, tail uint64, tokenFree bool) {
+	return s.b.head.SimPeek(), s.b.tail.SimPeek(), s.b.returned != nil
+}
+
+// ClockStaleness returns precise clock minus cached clock (ns), without
+// scheduling points.
+//
+//go:norace
+func ClockStaleness[K comparable, V any](s *Store[K, V]) int64 {
+	c := s.timerwheel.clock
+	return simrt.Now() - (c.Start.UnixNano() - simEpoch) - c.NowNanoCachedPeek()
+}
+
+const simEpoch = int64(1735689600) * 1e9
